@@ -2,7 +2,9 @@ API = {"dir": "api", "pkgname": "api"}
 
 SPEC = {
     "go": [dict(API, files=["api/c08_rig_test.go", "api/c08_generic_test.go", "api/c08_fuzz_test.go", "api/c08_test.go"],
-                test="TestVerifC08", n_quick=1200, n_thorough=48000, shards_quick=6, shards_thorough=16)],
+                test="TestVerifC08", n_quick=1200, n_thorough=48000, shards_quick=6, shards_thorough=16),
+           dict(dir="consensus/raft", pkgname="raft", files=["raft/c08_logop_test.go"],
+                test="TestVerifC08LogOp", n_quick=260, n_thorough=6000, shards_quick=4, shards_thorough=12)],
     "rule": "generated values pushed through the real codecs, one stream per boundary: pb = pins of every type/depth (0..4 allocations "
             "and origins, metadata incl. empty and non-ASCII keys, CIDv0/v1 references, expiry zero / unix-zero / negative / sub-second / "
             "year 10000, int32/uint64 boundaries, invalid UTF-8, invalid peer IDs) through ProtoMarshal/ProtoUnmarshal; pbmsg = arbitrary "
@@ -11,7 +13,11 @@ SPEC = {
             "numbers) through FromQuery; st/straw/pt/md = status masks, raw status strings, pin types, modes through their names; mp/js = "
             "reflect-built values of 21 record types through ugorji msgpack and encoding/json; eq = a pin against a one-field mutation of "
             "itself through Equals; wire = protobuf messages against the byte-level model (the model writer must produce the library's bytes, the model reader must read them back); plus a malformed-bytes stream (>= 20000 inputs per decoder family, counted under fuzz:*). "
-            "non-trivial = the value sets at least two optional fields (pb), any list/map/expiry (q), a multi-bit mask (st), every "
+            "logop (package consensus/raft) = sequences of 2..6 Raft log entries (pin / unpin / unknown type) of rich pins of every type, depth, CID version, "
+            "factors 0 / -1 / n, names, metadata, expiry, references, pin-update, where later pins leave EMPTY what earlier ones set, encoded and decoded "
+            "with go-libp2p-raft's own encode/decode into ONE shared LogOp and applied with the real LogOp.ApplyTo on a dsstate (plus the same bytes through the real "
+            "FSM.Apply), the pin handed to the tracker and the pin read back from the state per entry; onto = a pin decoded straight on top of another; "
+            "non-trivial = the value sets at least two optional fields (pb), a later entry empties a field of an earlier one (logop, onto), any list/map/expiry (q), a multi-bit mask (st), every "
             "mp/js/eq/pbmsg case; distinct = distinct canonical JSON of the input",
     "codes": {1: "model_eq_impl (C08 codecs)",
               10: "pb_roundtrip (stored protobuf form of a well-formed pin)",
@@ -22,10 +28,12 @@ SPEC = {
               15: "msgpack_roundtrip (a well-formed record through the msgpack codec)",
               16: "json_roundtrip (a well-formed record through encoding/json)",
               17: "equals_detects_every_field (Pin.Equals / PinOptions.Equals against field-by-field sameness)",
+              21: "logop_reuse_roundtrip (a well-formed Raft log entry, decoded into the FSM's one shared LogOp and applied, hands the tracker the submitted pin "
+                  "and stores its protobuf form, whatever the earlier entries were)",
               20: "decoder_total (a malformed input makes a decoder panic or yield a value that cannot be re-encoded)"},
     "tags": {1: "origins-undecodable"},
     "gen": ["C08Status", "C08Tags"],
-    "force": ["Gen/C08Status.v", "Gen/C08Tags.v", "Model/C08_Status.v", "Proofs/C08_Status.v", "Model/C08_Check.v"],
+    "force": ["Gen/C08Status.v", "Gen/C08Tags.v", "Model/C08_Status.v", "Proofs/C08_Status.v", "Model/C08_Reuse.v", "Proofs/C08_Reuse.v", "Model/C08_Check.v"],
     "diag": True,
     "trusted": [
         "byte formats: google.golang.org/protobuf (proto3 wire, UTF-8 check of string fields), ugorji/go/codec msgpack with the default handle, "
@@ -34,18 +42,23 @@ SPEC = {
         "multiaddr.NewMultiaddr(Bytes)/String/Bytes, time MarshalText/UnmarshalText, time.ParseDuration); their accept/reject outcome on the "
         "texts of a case is an input of the model (oracle), recomputed by the harness with the real parsers",
         "a value is identified with its canonical text (non-canonical but accepted texts are skipped by the raw-query stream and counted)",
-        "tools/gen/c08_status.go and c08_tags.go (syntactic translators of the constant table and the struct tags; embedded structs promoted as Go does)",
+        "tools/gen/c08_status.go and c08_tags.go (syntactic translators of the constant table and the struct tags; embedded structs promoted as Go does; "
+        "the LogOp rows come from consensus/raft/log_op.go, its span-context field - a struct of the tracing library, omitempty, zero unless tracing is on - is not described "
+        "and the harness checks that it never appears on the wire)",
+        "ugorji/go/codec decoding into a value in use behaves as Model/C08_Reuse.v dec_onto says (absent keys untouched, maps merged, slices re-sized and decoded element-wise, "
+        "set pointers kept); compared with the real decoder on Pin values at every run (stream onto); the cases that no Pin field exercises (struct elements of slices, map values decoded "
+        "on top of old ones, a nil wire value under a set pointer) were probed once and are not re-checked",
         "the malformed-input stream is fuzzing (a test, not a theorem): absence of panics is sampled",
     ],
-    "level_text": "26 theorems (Props/C08.v, all closed) over Gallina transcriptions of ProtoMarshal/ProtoUnmarshal/convertPinType, ToQuery/FromQuery with "
+    "level_text": "31 theorems (Props/C08.v, all closed) over Gallina transcriptions of ProtoMarshal/ProtoUnmarshal/convertPinType, ToQuery/FromQuery with "
                   "real string split/join and decimal printing/parsing, TrackerStatus.String/FromString over the constant table regenerated from the "
                   "source, the msgpack/JSON field maps over the struct-tag table regenerated from the source (one generic round-trip theorem for every "
-                  "well-formed tag table, instantiated on the current one), Pin.Equals/PinOptions.Equals, and (growth item) a byte-level proto3 writer/reader of the stored pin; each transcription is compared with the "
+                  "well-formed tag table, instantiated on the current one), Pin.Equals/PinOptions.Equals, (growth item) a byte-level proto3 writer/reader of the stored pin, and the Raft FSM loop that decodes every log entry into one shared LogOp (decoding onto a used value, LogOp.ApplyTo with its reset of op.Cid: every well-formed entry comes out as itself whatever preceded it; refuted without the reset); each transcription is compared with the "
                   "real code on generated values at every run and the implementation's own output is checked against the boolean form of the property",
     "level_note": "byte-level msgpack/JSON/url encoders are trusted libraries (the protobuf wire format of the stored pin is modelled and proved as a growth item); models tied to code by differential testing (generator-bounded) and two translators; "
                   "S19 (origins undecodable from msgpack/JSON) is a finding: full statement refuted, partial statement proved; decoder totality on raw "
                   "bytes is fuzzed, not proved",
-    "assumptions": ["decoding into a fresh value (the reuse of one LogOp by the Raft FSM is modelled in C01)",
+    "assumptions": ["decoding into a fresh value everywhere except the Raft log, where the reuse of one LogOp by go-libp2p-raft's FSM is modelled (C08_Reuse) and driven on the real code; what FSM.Apply does after an entry that does not decode (rollback branch) is C01's",
                     "time.Time values within the range where Unix() does not overflow",
                     "Go map iteration order is arbitrary: theorems quantify over it, comparisons sort"],
 }
